@@ -4,9 +4,9 @@ the property checks C06 / C01 / C02 / C12 call the same library."""
 import pipeline
 
 ID = "PIPE"
-LEAN_MODULES = list(pipeline.LEAN_MODULES)
-GEN = list(pipeline.GEN)
-THEOREMS = list(pipeline.THEOREMS)
+LEAN_MODULES = list(pipeline.LEAN_MODULES) + list(pipeline.BODIES_MODULES)
+GEN = list(pipeline.GEN) + list(pipeline.BODIES_GEN)
+THEOREMS = list(pipeline.THEOREMS) + pipeline.bodies_theorems()
 RULE = pipeline.RULE
 ASSUMPTIONS = ["instants, random variables, events, plots, quit/rand/seed and astronomically large powers / factorials / ranges are outside the "
                "unified model: such programs are answered `unmodelled` and skipped (counted in coverage.pipeline)",
@@ -17,7 +17,18 @@ TECHNIQUE = "Lean 4 unified model + whole-program differential fuzzing"
 
 
 def check(ctx):
-    st = pipeline.check(ctx, ctx.n(4000, 60000), ctx.n(300, 5000))
+    # every program also runs with the function bodies TRANSLATED from the source in place of the hand-written ones
+    st = pipeline.check(ctx, ctx.n(4000, 60000), ctx.n(300, 5000), bodies=True)
     p = st["programs"]
+    g = p.get("translated_bodies")
+    bc = pipeline.bodies_coverage(ctx)
+    if bc:
+        ctx.notes.append("translator: %d descriptors translated (%d of them modelled by hand, %d with an agreement theorem), %d refused "
+                         "(%d of the refused ones have a hand-written body: tied by correspondence only)"
+                         % (bc["translated"], bc["translated_and_modelled"], bc["with_theorem"], bc["refused"], len(bc["modelled_but_refused"])))
+    if g:
+        ctx.notes.append("translated bodies (Gen/Bodies, stream runG): %d programs compared, %d disagreements with execute(), "
+                         "%d answers different from the hand-written bodies; sessions: %r"
+                         % (g["modelled"], g["disagreements"], g["differs_from_handwritten"], st["sessions"].get("translated_bodies")))
     ctx.notes.append("pipeline: %d programs, %d modelled, %d unmodelled, %d disagreements; sessions: %r"
                      % (p["total"], p["modelled"], p["unmodelled"], p["disagreements"], st["sessions"]))
